@@ -101,16 +101,22 @@ struct FV // void-result twin
 // bound object is a Trk — mem_fun must decide tracking from the object's class, not the method's
 struct RunBase
 {
-  int brun(int a, const F& f)
-  {
-    int fid = f.fid;
-    return invoke_leaf(fid, a);
+#define HB_CV(NAME, Q)                  \
+  int NAME(int a, const F& f) Q         \
+  {                                     \
+    int fid = f.fid;                    \
+    return invoke_leaf(fid, a);         \
+  }                                     \
+  void NAME##v(int a, const F& f) Q     \
+  {                                     \
+    int fid = f.fid;                    \
+    invoke_leaf(fid, a);                \
   }
-  void brunv(int a, const F& f)
-  {
-    int fid = f.fid;
-    invoke_leaf(fid, a);
-  }
+  HB_CV(brun, )
+  HB_CV(bcrun, const)
+  HB_CV(bvrun, volatile)
+  HB_CV(bwrun, const volatile)
+#undef HB_CV
 };
 
 struct Trk : public RunBase, public sigc::trackable
@@ -582,19 +588,33 @@ struct Interp
       if (!t)
         return 1;
       // odd functor ids bind a method inherited from the non-trackable base
+      // … cycling through the plain / const / volatile / const volatile overloads of mem_fun
+      int cv = (fid / 2) % 4;
       if constexpr (isV)
       {
-        if (fid % 2)
-          dst = SlotV(sigc::bind(sigc::mem_fun(*t, &Trk::brunv), F(fid)));
-        else
+        if (fid % 2 == 0)
           dst = SlotV(sigc::bind(sigc::mem_fun(*t, &Trk::runv), F(fid)));
+        else if (cv == 0)
+          dst = SlotV(sigc::bind(sigc::mem_fun(*t, &Trk::brunv), F(fid)));
+        else if (cv == 1)
+          dst = SlotV(sigc::bind(sigc::mem_fun(*t, &Trk::bcrunv), F(fid)));
+        else if (cv == 2)
+          dst = SlotV(sigc::bind(sigc::mem_fun(*t, &Trk::bvrunv), F(fid)));
+        else
+          dst = SlotV(sigc::bind(sigc::mem_fun(*t, &Trk::bwrunv), F(fid)));
       }
       else
       {
-        if (fid % 2)
-          dst = SlotI(sigc::bind(sigc::mem_fun(*t, &Trk::brun), F(fid)));
-        else
+        if (fid % 2 == 0)
           dst = SlotI(sigc::bind(sigc::mem_fun(*t, &Trk::run), F(fid)));
+        else if (cv == 0)
+          dst = SlotI(sigc::bind(sigc::mem_fun(*t, &Trk::brun), F(fid)));
+        else if (cv == 1)
+          dst = SlotI(sigc::bind(sigc::mem_fun(*t, &Trk::bcrun), F(fid)));
+        else if (cv == 2)
+          dst = SlotI(sigc::bind(sigc::mem_fun(*t, &Trk::bvrun), F(fid)));
+        else
+          dst = SlotI(sigc::bind(sigc::mem_fun(*t, &Trk::bwrun), F(fid)));
       }
       return 0;
     }
